@@ -34,6 +34,14 @@ def run(ck):
     expect_err(S.cmd("verify", "kA", "pA", pis(pv + [0])), "public input vector extended by 0", "pi-len")
     expect_err(S.cmd("verify", "kA", "pA", pis(pv + [rng.scalar()])), "public input vector extended", "pi-len")
     expect_err(S.cmd("verify", "kA", "pA", "-"), "empty public input vector", "pi-len")
+    # a statement whose public-input vector ENDS in zeros: every shorter prefix must still be rejected
+    pz = [rng.scalar(), 0, 0]
+    basez = ["w 5", "w 7"] + [f"pub {hx(v)}" for v in pz] + ["gmul 1 0 0 0 0 0 - $0 $1 0 0"]
+    S.circuit("AZ", basez); S.cmd("compile", "kAZ", "pp", "6c6162656c", "AZ"); S.cmd("prove", "pAZ", "kAZ", "AZ", 12)
+    okAZ = S.cmd("verify", "kAZ", "pAZ", "=")
+    for cut in (1, 2, 3):
+        expect_err(S.cmd("verify", "kAZ", "pAZ", pis(pz[:len(pz) - cut])), f"trailing-zero public inputs: vector cut by {cut}", "pi-len")
+    expect_err(S.cmd("verify", "kAZ", "pAZ", pis(pz + [0])), "trailing-zero public inputs: vector extended by 0", "pi-len")
     # near-miss circuits
     near = {
         "one selector value": [l.replace("gmul 1 0 0 0 0 0", "gmul 1 0 0 0 0 1") for l in base],
@@ -97,6 +105,8 @@ def run(ck):
     expect_err(S.cmd("prove", "pV1", "kA", "A", 9, "V1"), "proving under V1", "version")
     res = protocol.run(S, "c04", checked=True)
     ck.sample({"circuit": base[:5], "public_inputs": [hx(v) for v in pv]})
+    if not res[okAZ].startswith("OK"):
+        ck.violation(f"honest trailing-zero case failed: {res[okAZ][:60]}", {"failing_input_found": True, "circuit": basez}, key="honest")
     if not (res[pA].startswith("OK") and res[okA].startswith("OK")):
         ck.violation(f"honest base case failed: {res[pA][:60]} / {res[okA][:60]}", {"failing_input_found": True, "circuit": base}, key="honest")
     for cid, desc, key in tests:
